@@ -533,3 +533,69 @@ pub fn run_query_until(prog: &Program, step_budget: u64, max_answers: usize, on_
     }
     out
 }
+
+/// Build the query ONCE and run the same `Query` value `n` times in this thread (goal objects
+/// are shared between the runs). Only answers/ended/panic/budget are recorded per run.
+pub fn run_same_query_n(prog: &Program, cfg: &RunCfg, n: usize) -> Vec<SeedRun> {
+    trace("run_same_query_n", prog);
+    let mut outs = vec![];
+    let built = catch_unwind(AssertUnwindSafe(|| {
+        let b = Builder::new(prog);
+        let mut env = Env::new();
+        let (qvars, goal) = b.query_goal(&mut env);
+        let q: Query<R, U, E> = Query::new(qvars, goal);
+        q
+    }));
+    let query = match built {
+        Ok(q) => q,
+        Err(_) => {
+            let mut s = SeedRun::default();
+            s.panic = Some(take_last_panic().unwrap_or_default());
+            return vec![s];
+        }
+    };
+    for _ in 0..n {
+        let mut s = SeedRun::default();
+        let _ = take_last_panic();
+        verif::reset(cfg.step_budget);
+        let answers: RefCell<Vec<Ans>> = RefCell::new(vec![]);
+        let flags: RefCell<(bool, bool)> = RefCell::new((false, false));
+        let r = catch_unwind(AssertUnwindSafe(|| {
+            let mut it = query.run_with_user(Mon::default(), ());
+            while answers.borrow().len() < cfg.max_answers {
+                match it.next() {
+                    Some(res) => {
+                        let (a, _raw) = convert_answer(&res, false);
+                        answers.borrow_mut().push(a);
+                    }
+                    None => {
+                        flags.borrow_mut().0 = true;
+                        for _ in 0..cfg.extra_next {
+                            if it.next().is_some() {
+                                flags.borrow_mut().1 = true;
+                            }
+                        }
+                        break;
+                    }
+                }
+            }
+        }));
+        s.steps = verif::steps();
+        verif::reset(u64::MAX);
+        let _ = verif::take_paths();
+        s.answers = answers.into_inner();
+        let (ended, fv) = flags.into_inner();
+        s.ended = ended;
+        s.fused_violation = fv;
+        if let Err(e) = r {
+            if e.is::<verif::StepBudgetExceeded>() {
+                s.budget_exceeded = true;
+                let _ = take_last_panic();
+            } else {
+                s.panic = Some(take_last_panic().unwrap_or_default());
+            }
+        }
+        outs.push(s);
+    }
+    outs
+}
